@@ -3,6 +3,7 @@ import TapkeeVerif.Proofs.QuadTreeForces
 import TapkeeVerif.Proofs.QuadTreeFuel
 import TapkeeVerif.Proofs.QuadTreeRoot
 import TapkeeVerif.Proofs.QuadTreeErr
+import TapkeeVerif.Proofs.QuadTreeTwins
 /-!
 # C18 — the Barnes–Hut quadtree stores each point once; masses and centres of mass; force sums
 
@@ -100,6 +101,28 @@ theorem forces_theta0_exact (data : Nat → K × K) (fuel : Nat) (root : Cell K)
     (h : buildIn data fuel root is = some t) (hd : DistinctIdx data (accepted data root is)) (pi : Nat) :
     forces data 0 pi t ((0, 0), 0) = exactForces data (accepted data root is) pi :=
   forces_zero_exact data fuel root is t h hd pi
+
+/-- **θ = 0 with coincident points** — what the code does when the hypothesis of `forces_theta0_exact` fails.  For
+    every point list (coincident points, repeated indices allowed), every insertion order and every query index `pi`:
+    the force components returned by `computeNonEdgeForces(pi, 0)` ARE the exact all-pairs sums; `sum_Q` deviates from
+    the exact sum by `count − corr`, `count` = how often `pi` itself was accepted, `corr pi t` = the mass of the leaf
+    whose resident is `pi` (0 if `pi` is not stored): a stored point skips the twins its leaf absorbed (`1 − k`), an
+    absorbed twin counts itself (`+1`).  Without coincident points `count = corr = 1` for accepted `pi`. -/
+theorem forces_theta0_coincident (data : Nat → K × K) (fuel : Nat) (root : Cell K) (is : List Nat) (t : Tree K)
+    (h : buildIn data fuel root is = some t) (pi : Nat) :
+    forces data 0 pi t ((0, 0), 0) =
+      exactForces data (accepted data root is) pi +
+        ((0, 0), (((accepted data root is).count pi : Nat) : K) - ((corr pi t : Nat) : K)) :=
+  forces_zero_coincident data fuel root is t h pi
+
+/-- … and over all query points the deviations cancel: the leaf masses of the stored points add up to the number of
+    accepted points (so `Σ_pi sum_Q(pi)`, the normaliser `computeGradient` divides by, is exact for every point set —
+    C17 `bh_theta0_eq_exact`) -/
+theorem self_skip_total (data : Nat → K × K) (fuel : Nat) (root : Cell K) (is : List Nat) (t : Tree K)
+    (h : buildIn data fuel root is = some t) (l : List Nat) (hl : l.Nodup) (hsub : ∀ r ∈ allIndices t, r ∈ l) :
+    (l.map fun pi => corr pi t).sum = (accepted data root is).length := by
+  have := corr_total data t _ (buildIn_WF data fuel root is t h).1 l hl hsub
+  rwa [acceptedPts_eq, List.length_map] at this
 
 /-- **θ → 0**: there is a threshold `θ₀ > 0` below which the returned pair *is* the exact all-pairs pair
     (the strongest form of "the error vanishes as θ tends to zero") -/
@@ -230,6 +253,14 @@ def seCum : Tree Rat → Option Nat
 
 /-- after inserting a, a, b the cell holding the two coincident points has mass 2 (it was 1 before the fix) -/
 theorem mass_witness : (buildIn dataW 3 rootW [0, 1, 2]).bind seCum = some 2 := by decide +kernel
+
+/-- `DistinctIdx` is needed in `forces_theta0_exact`: for a, a, b the twin `1` gets `sum_Q = exact + 1`, the resident
+    `0` gets `exact − 1` (the force components agree) -/
+theorem forces_theta0_twins_witness :
+    ((buildIn dataW 3 rootW [0, 1, 2]).map fun t =>
+      decide ((forces dataW 0 1 t ((0, 0), 0)).2 = (exactForces dataW [0, 1, 2] 1).2 + 1 ∧
+        (forces dataW 0 0 t ((0, 0), 0)).2 = (exactForces dataW [0, 1, 2] 0).2 - 1 ∧
+        (forces dataW 0 1 t ((0, 0), 0)).1 = (exactForces dataW [0, 1, 2] 1).1)) = some true := by decide +kernel
 
 /-- three distinct points, one on a cell boundary, inserted in the order 2, 0, 1 -/
 def dataE : Nat → Rat × Rat := fun i => if i = 0 then (0, 0) else if i = 1 then (1 / 2, 1 / 4) else (-3 / 4, 1)
